@@ -131,3 +131,15 @@ Theorem C07_pqmr_tolerant_reader_refuted :
   option_map set_bits (lookup_last 1%N bl) = Some [1%N].
 Proof. exact pqmr_tolerant_reader_refuted. Qed.
 Print Assumptions C07_pqmr_tolerant_reader_refuted.
+
+(* ---- the writer's call order, from the source: on EVERY path through AppendWipToSegfile and
+   checkAndRotateColFiles (skeletons regenerated from /repo on every run by gotrans in calltrace mode, callees
+   inlined; every branch possible, every loop any number of times) the block summary and the segment statistics
+   are written before the running .sfm, the .sfm before the persistent-query results, the star tree before the
+   segmeta.json line, and the segmeta.json line before the writer drops the segment: the order of FlushProto.ops_of
+   is the order of the code (rules C07.* of GenOrderCheck.co_rules). ---- *)
+From SigP Require GenOrderCheck GenOrderProofs.
+Theorem C07_code_writes_before_the_metadata_that_names_them : forall r : GenOrderCheck.rule,
+  In r GenOrderProofs.c07_rules -> GenOrderCheck.rule_holds r.
+Proof. exact GenOrderProofs.co_C07_rules_hold. Qed.
+Print Assumptions C07_code_writes_before_the_metadata_that_names_them.
